@@ -32,9 +32,9 @@ def _ref(o, off=None):
     return r
 
 
-def fam_pair(ctx, ka, sa, fa, kb, sb, fb, permb, base, w, swap, method, origin=None):
+def fam_pair(ctx, ka, sa, fa, kb, sb, fb, permb, base, w, swap, method, origin=None, trange=None):
     """A fixed; B = shape translated by base + t*w (lattice vectors in world coordinates; w = 'edge': the first edge of A)"""
-    t = ctx.param('t')
+    t = ctx.param('t') if trange is None else ctx.param('t', trange[0], trange[1])
     oa = _obj(ka, sa, fa, origin=origin)
     ob = _obj(kb, sb, fb, perm=permb, origin=origin)
     if w == 'edge':
@@ -117,6 +117,9 @@ def families(tier, seed):
         (PH, 'cube', 'axis', PH, 'cube', 'axis', None, (1, 1, 0), (0, 0, 1)),
         (PH, 'cube', 'axis', PH, 'cube', 'axis', None, (0, 0, 0), (1, 1, 1)),
         (PH, 'tetra', 'axis', PH, 'tetra', 'axis', None, (0, 0, 0), (1, 0, 0)),
+        # bodies with different numbers of faces (6 against 4), both argument orders: whatever pairs up the two face lists must not stop
+        # at the shorter one (6 against 5 faces)
+        (PH, 'cube', 'axis', PH, 'prism*1/2', 'axis', None, (0, F(1, 4), F(1, 2)), (1, 0, 0), None, (F(1, 2), F(5, 2))),   # leaves through the cube's last-listed face
         # nested bodies: a small cube travels through a big one (outside, touching, strictly inside) - both argument orders
         (PH, 'cube', 'axis', PH, 'cube*1/4', 'axis', None, (F(3, 4), F(3, 4), F(1, 2)), (1, 0, 0)),
     ]
@@ -150,14 +153,15 @@ def families(tier, seed):
     for i, row in enumerate(rows):
         ka, sa, fa, kb, sb, fb, pb, base, w = row[:9]
         origin = row[9] if len(row) > 9 else None
-        for swap in ((False,) if (tier == 'quick' and ka == kb == PH and '*' not in sb) else (False, True)):
+        trange = row[10] if len(row) > 10 else None
+        for swap in ((False,) if (tier == 'quick' and ka == kb == PH and '*' not in sb) else (False, True)):      # ('*' rows: both orders)
             method = (i % 2 == 1)
             heavy = (ka == PH and kb == PH)
             fams.append(Family('%s-%s@%s/%s-%s@%s%s/base%s/w%s/%s%s' % (ka[6:], sa, fa, kb[6:], sb, fb, '' if pb is None else '#%d' % pb,
                                                                       ','.join(map(str, base)), w if isinstance(w, str) else ','.join(map(str, w)),
                                                                       ('swap' if swap else 'fwd') + ('' if origin is None else '@origin'),
                                                                       '/m' if method else ''),
-                               fam_pair, (ka, sa, fa, kb, sb, fb, pb, base, w, swap, method, origin),
+                               fam_pair, (ka, sa, fa, kb, sb, fb, pb, base, w, swap, method, origin, trange),
                                budget_s=(150 if tier == 'quick' else 2400) if heavy else None))
     return fams
 
